@@ -713,6 +713,7 @@ def qm_history(ctx, r, dt, nops, lines, expect, meta, malformed_rate):
         src = src_of(op)
         hist.append('try:\n    ' + src + '\nexcept Exception as e: print("raised", type(e).__name__, e)')
         exc = None
+        ctx.mark(f'C04 QM {dt} about to run: {src}  (history: {[h for h in hist[-6:]]})')
         try:
             apply_real(q, op)
         except Exception as e:  # noqa
